@@ -1,4 +1,4 @@
-"""C08 — memcpy/memmove/memset/memcmp/bcmp of tiny-start/src/symbols/mem.rs match C for every
+"""C08 — memcpy/memmove/memset/memcmp/bcmp of tiny-start/src/symbols/mem.rs (+ symbols/mem/**) match C for every
 length, alignment and overlap, never write outside the destination range and never READ outside
 `[s, s+n)` of any operand (source of the copies, both operands of the compares)."""
 from . import common as C
@@ -261,7 +261,7 @@ def gen_small(ctx, nmax):
                     cases.append("cpy %d %d %d %d %d" % (size, 1 + (n & 3), lo, hi, n))
                 else:
                     cases.append("cpy %d %d %d %d %d" % (size, 1 + (n & 3), hi, lo, n))
-    # memmove / copy_forward / copy_backward: every delta = dest - src in -(n+2)..=(n+2)
+    # memmove / its forward routine / its backward routine: every delta = dest - src in -(n+2)..=(n+2)
     ctr = 16 * ((RZ + nmax + 2 + 15) // 16)
     for n in range(nmax + 1):
         for dm in range(16):
@@ -388,8 +388,13 @@ debug-assertions = false
 """
 
 
-def build(ctx, release):
-    exe, err = C.cargo_build(ctx, "c08", release=release)
+GLUE_LEVELS = ("all", "fns", "consts", "none")
+_glue = {"level": 0}
+
+
+def _build_at(ctx, release, level):
+    env = {"C08_GLUE": GLUE_LEVELS[level]}
+    exe, err = C.cargo_build(ctx, "c08", release=release, extra_env=env)
     if exe is not None:
         return exe, ""
     if "workspace member" in err and "/c08" not in err.split("Caused by")[0]:
@@ -404,8 +409,26 @@ def build(ctx, release):
         shutil.copy(os.path.join(src, "src", "main.rs"), os.path.join(dst, "src"))
         open(os.path.join(dst, "Cargo.toml"), "w").write(open(os.path.join(src, "Cargo.toml")).read() + STANDALONE_PROFILES)
         ctx.extra["harness_built_standalone"] = err.splitlines()[0]
-        return C.cargo_build(ctx, "c08", release=release, workspace=dst, extra_env={"CARGO_TARGET_DIR": os.path.join(dst, "target")})
+        env["CARGO_TARGET_DIR"] = os.path.join(dst, "target")
+        return C.cargo_build(ctx, "c08", release=release, workspace=dst, extra_env=env)
     return None, err
+
+
+def build(ctx, release):
+    """harness/c08/build.rs copies symbols/mem.rs and symbols/mem/** and APPENDS glue that reaches the private forward /
+    backward copy routines and the tuning constants (found from the bodies of memcpy / memmove resp. by name).  The glue
+    is a convenience of the check, not part of the property: if a build with glue fails, retry with less of it (the `fwd` /
+    `bwd` operations then go through memmove, the constants are reported as unknown) before calling the build failed."""
+    first_err = None
+    for level in range(_glue["level"], len(GLUE_LEVELS)):
+        exe, err = _build_at(ctx, release, level)
+        if exe is not None:
+            if level != _glue["level"]:
+                ctx.extra["harness_glue_degraded"] = {"level": GLUE_LEVELS[level], "because": (first_err or "").splitlines()[-12:]}
+            _glue["level"] = level
+            return exe, ""
+        first_err = first_err or err
+    return None, first_err
 
 
 SYMS = ("memcpy", "memmove", "memset", "memcmp", "bcmp")
@@ -454,7 +477,7 @@ def run(ctx):
     quick = ctx.tier == "quick"
     nmax = 40 if quick else 72
     ctx.rule = ("cases = exhaustive n in 0..=%d x destination misalignment 0..=15 x (memcpy: source misalignment 0..=15, both orders; "
-                "memmove/copy_forward/copy_backward: every distance dest-src in -(n+2)..=n+2; memset: 8 fill values incl. negative and >255 c_int; "
+                "memmove and the forward / backward copy routine it dispatches to (identified from the bodies of memcpy / memmove, not by name; where the forward resp. backward direction is safe): every distance dest-src in -(n+2)..=n+2; memset: 8 fill values incl. negative and >255 c_int; "
                 "memcmp/bcmp: every first-difference position, none, and a difference just outside the range, with unsigned-extreme byte pairs) "
                 "plus a mid-range sweep (every n in 41..=%d and around every multiple of 64 up to 1 KiB x every destination position inside a %d-byte line: memcpy, memmove overlapping either way, memset) "
                 "plus sizes sampled up to 1 MiB from VERIF_SEED, each in a pattern-filled arena with >=32-byte red zones, whole arena hashed; "
@@ -464,7 +487,7 @@ def run(ctx):
                 "at the last / first / a random byte, plus multi-page operands sampled from VERIF_SEED; a load or store in such a page is reported with the case; "
                 "distinct_nontrivial = distinct (op, n (bucketed above 48), dest mod 8, src mod 8, overlap class, guard placement) classes" % (nmax, 160 if quick else 320, 64 if quick else 128, nmax))
     ctx.assumptions += [
-        "the model Model/MemFns.lean describes tiny-start/src/symbols/mem.rs (checked by the correspondence streams of this run, debug and release builds of the textually included file)",
+        "the model Model/MemFns.lean describes tiny-start/src/symbols/mem.rs and the files below tiny-start/src/symbols/mem/ (checked by the correspondence streams of this run, debug and release builds of a textual copy of those files)",
         "a word access is 8 byte reads then 8 byte writes; misaligned word reads through read_usize_unaligned are allowed (x86-64/aarch64)",
         "C's preconditions: the objects do not wrap the address space (dest+n, src+n <= 2^64); memcpy's ranges do not overlap",
         "reads outside the operands: PROVED for the model (every load of memcpy/memmove lies in [src, src+n), of memcmp/bcmp in [s1, s1+n) or [s2, s2+n), memset loads nothing; every store lies in [dest, dest+n)) and "
@@ -500,8 +523,14 @@ def run(ctx):
         mode = "release" if release else "debug"
         rc, outs, _ = C.run_filter([exe], ["consts"])
         ctx.extra.setdefault("constants_in_code", {})[mode] = outs[0] if outs else "?"
-        if not outs or outs[0] != "word_size=8 word_mask=7 threshold=16":
+        kv = dict(t.split("=", 1) for t in (outs[0].split() if outs else []) if "=" in t)
+        consts = " ".join("%s=%s" % (k, kv.get(k, "?")) for k in ("word_size", "word_mask", "threshold"))
+        # constants of these names no longer exist (renamed / inlined): nothing to compare, the behaviour streams decide
+        if consts != "word_size=unknown word_mask=unknown threshold=unknown" and consts != "word_size=8 word_mask=7 threshold=16":
             ctx.violation({"kind": "constants-changed"}, {"implementation": outs[:1], "model": "word_size=8 word_mask=7 threshold=16"}, no_input=True)
+        # what the `fwd` / `bwd` operations reach: the routine memcpy / memmove call (by whatever name, in whatever file),
+        # or memmove itself when no such routine could be identified
+        ctx.extra.setdefault("direct_copy_routines", {})[mode] = {"fwd": kv.get("fwd", "?"), "bwd": kv.get("bwd", "?"), "glue": kv.get("glue", "?")}
         C.correspond(ctx, "small-" + mode, small, [exe], drv, judge, sig_of)
         C.correspond(ctx, "big-" + mode, big, [exe], drv, judge, sig_of)
         C.correspond(ctx, "guard-" + mode, guard, [exe], drv, judge, sig_of)
